@@ -31,7 +31,8 @@ void *lfind(const void *key, const void *base, size_t *nmemb, size_t size, int (
 #include "xraylib-radionuclides.c"
 #include "spec_catalog.h"
 
-/* macro name of a catalogue name: upper-case alphanumerics, every run of other characters -> one '_', no trailing '_' */
+/* macro name of a catalogue name: upper-case alphanumerics; every run of spaces / hyphens -> one '_' (none at the end);
+ * all other punctuation (commas, slashes, parentheses) is dropped */
 static int norm_eq(const char *name, const char *macro_suffix)
 {
   int i = 0, j = 0, pending = 0;
@@ -44,7 +45,7 @@ static int norm_eq(const char *name, const char *macro_suffix)
       if (c >= 'a' && c <= 'z') c = c - 'a' + 'A';
       if (macro_suffix[j] != (char)c) return 0;
       j++;
-    } else pending = 1;
+    } else if (c == ' ' || c == '-') pending = 1;
   }
   return macro_suffix[j] == 0;
 }
